@@ -884,7 +884,7 @@ pub fn run(ctx: Ctx) -> ! {
         replay(ctx);
     }
     let all: Vec<(u8, u8)> = vec![(0, MAP), (0, SORTED), (1, MAP), (1, SORTED)];
-    let (d_single, d_node, d_full) = ctx.pick((4, 3, 2), (5, 4, 3));
+    let (d_single, d_node, d_full) = ctx.pick((4, 3, 2), (6, 4, 3));
     let mut configs = vec![];
     for b in 0..4 {
         for f in [vec![(0, MAP)], vec![(0, SORTED)]] {
